@@ -54,6 +54,8 @@ PERSIST_MODELS = {
     # must mirror tla/Blocklist/MC_Refresh.tla
     "R": {"prog": {"1": [O("Remove", "E1"), O("Set", "E2")],
                    "2": [O("SetBatch", "E3"), O("RemoveBatch", "E4")]}, "init": ["E1", "E4"]},
+    # must mirror tla/Blocklist/MC_Refresh.tla MCProgF / MCInitF (a fresh install; a parent and its child both added)
+    "F": {"prog": {"1": [O("Set", "E1")], "2": [O("SetBatch", "E2", "E3")]}, "init": [], "noDir": True},
     "W3": {"prog": {"1": [O("Set", "E1"), O("RemoveBatch", "E2", "E4")],
                     "2": [O("SetBatch", "E2", "E3", "ER"), O("Remove", "E1")],
                     "3": [O("Set", "ER"), O("Set", "E4"), O("Remove", "E3")]}, "init": []},
@@ -174,7 +176,7 @@ def persist_schedules(ctx, model, scheds, tag, validate=True):
     trace = os.path.join(ctx.scratch, "persist_%s_%s.ndjson" % (model, tag))
     inp = {"entries": PERSIST_ENTRIES, "wl": PERSIST_WL, "initMem": pm["init"], "prog": pm["prog"],
            "shape": SHAPES[0], "universe": qnames(["a", "b", "c"], 3), "schedules": scheds,
-           "traceOut": trace, "strictDir": True, "model": model}
+           "traceOut": trace, "strictDir": True, "model": model, "noDir": bool(pm.get("noDir"))}
     res = ctx.go_driver("./c18", "TestPersistSchedules", inp, name="persist_%s_%s" % (model, tag), timeout=1500)
     ctx.take_driver_result(res, "[BlPersist %s %s] " % (model, tag))
     if res.get("skipped"):
@@ -347,6 +349,56 @@ def refresh_stage(ctx, thorough):
         raise vf.MachineryError("refresh schedules did not run")
 
 
+def fresh_stage(ctx, thorough):
+    """BlRefresh.tla with the directory and the loader as dimensions: a fresh install (no blocklist directory when New()
+    runs; refreshRemote creates it a second later) and a list holding a parent and its child.  The repaired behaviour
+    (persist creates the missing directory; the loader takes every line of `local`) satisfies Converged and
+    ReloadsExactly; each as-built variant must fail its invariant on the model, and TLC's counter-examples run on the
+    real BlockList."""
+    ctx.tlc("Blocklist", "MC_Refresh.tla", "MC_Fresh_fixed.cfg", workers=2, timeout=600, heap="3g")
+    scheds, seen = [], set()
+
+    def labels(b):
+        out = []
+        for i in range(1, len(b)):
+            if b[i][1].get("refreshed") != b[i - 1][1].get("refreshed"):
+                out.append("Refresh")
+            else:
+                out.append(step_label(b[i - 1][1], b[i][1], "Step"))
+        return out
+    for cfg, inv in (("MC_Fresh_asbuilt.cfg", "Converged"), ("MC_Exact_asbuilt.cfg", "ReloadsExactly")):
+        r = ctx.tlc("Blocklist", "MC_Refresh.tla", cfg, workers=2, timeout=600, heap="3g", must_pass=False, count=False,
+                    tag="as-built-must-fail")
+        if r.violated != inv:
+            raise vf.MachineryError("%s: expected %s to fail on the as-built model, got %r" % (cfg, inv, r.violated))
+        parts = re.split(r"\nState (\d+): <(.*?)>\n", r.out)
+        cex = [(parts[i + 1], vf.parse_tla_state(parts[i + 2].split("\n\n")[0])) for i in range(1, len(parts) - 2, 3)]
+        if len(cex) < 3:
+            raise vf.MachineryError("could not read the counter-example of %s" % cfg)
+        scheds.append(labels(cex))
+    behs = ctx.tlc_behaviours("Blocklist", "MC_Refresh.tla", "Sim_Fresh.cfg", num=60 if not thorough else 400, depth=40, timeout=600)
+    for sc in scheds:
+        seen.add(";".join(sc))
+    nref = 0
+    for b in behs:
+        sc = labels(b)
+        k = ";".join(sc)
+        if k in seen:
+            continue
+        if "Refresh" in sc:
+            if nref >= (4 if not thorough else 30):      # each one waits out the real one-second timer
+                continue
+            nref += 1
+        seen.add(k)
+        scheds.append(sc)
+    scheds = scheds[:40 if not thorough else 300]
+    for sc in scheds:
+        ctx._distinct.add("persist-fresh:" + ";".join(sc))
+    info = persist_schedules(ctx, "F", scheds, "fresh", validate=False)
+    if info.get("steps", 0) == 0:
+        raise vf.MachineryError("fresh-install schedules did not run")
+
+
 def step_label(prev, cur, action):
     """Which writer moved between two BlPersist states (Crash moves none)."""
     if action.startswith("Crash") or cur.get("crashed", 0) != prev.get("crashed", 0):
@@ -448,6 +500,7 @@ def run(ctx, replay):
     matcher(ctx, thorough)
     persist(ctx, thorough)
     refresh_stage(ctx, thorough)
+    fresh_stage(ctx, thorough)
     # writers really waiting on saveMu (BlQueue.tla): which waiter gets the lock is the code's choice
     x18q.run_tier(ctx)
     stress(ctx, thorough)
